@@ -9,6 +9,7 @@ import (
 	"go/token"
 	"go/types"
 	"math/big"
+	"sort"
 	"strings"
 
 	"golang.org/x/tools/go/ssa"
@@ -284,6 +285,52 @@ func rulesC10(w *World, o *Out) {
 				}
 			}
 			o.Check("C10.R4", "transformSnapshotToCompass|validator listed only with an account on this chain", okT && okR, pos, "the append must be dominated by chain type and chain reference id equality")
+			// ... and with nothing else deciding: every snapshot validator with such an account is listed, whatever
+			// its share or computed power (loop bounds and nil checks aside)
+			var extra []string
+			for _, f := range FactsAt(st) {
+				switch f.Kind {
+				case FNil, FNonNil:
+					continue
+				}
+				isLoopOrChain := false
+				sides := []ssa.Value{f.V, f.X, f.Y}
+				for _, sd := range sides {
+					if sd == nil {
+						continue
+					}
+					if lc, isLC := canon(sd).(*ssa.Call); isLC {
+						if lb, isLB := lc.Call.Value.(*ssa.Builtin); isLB && lb.Name() == "len" {
+							isLoopOrChain = true
+						}
+					}
+					if fl.DependsOnCall(sd, func(c Callee) bool { return c.Name == "GetChainType" || c.Name == "GetChainReferenceID" }) != nil {
+						isLoopOrChain = true
+					}
+					x, _ := fl.Influence(sd)
+					for a := range x {
+						if strings.HasSuffix(a.Path, ".ChainType") || strings.HasSuffix(a.Path, ".ChainReferenceID") {
+							isLoopOrChain = true
+						}
+					}
+					if _, isNext := canon(sd).(*ssa.Extract); isNext {
+						if ex := canon(sd).(*ssa.Extract); ex.Index == 0 {
+							if _, isN := ex.Tuple.(*ssa.Next); isN {
+								isLoopOrChain = true // map / string range "ok"
+							}
+						}
+					}
+				}
+				if !isLoopOrChain {
+					d := valDesc(f.V)
+					if f.Kind == FCmp {
+						d = valDesc(f.X) + " " + f.Op.String() + " " + valDesc(f.Y)
+					}
+					extra = append(extra, d)
+				}
+			}
+			sort.Strings(extra)
+			o.Check("C10.R4", "transformSnapshotToCompass|every validator with an account on this chain is listed", len(extra) == 0, pos, "the listing is the snapshot restricted to validators with an account on the chain; further conditions on the way to the append (e.g. skipping a zero power) drop validators that belong to it: "+strings.Join(extra, "; "))
 			// truncation, no rounding
 			_, calls := fl.Influence(st.Val)
 			var rounding []string
@@ -743,26 +790,31 @@ func rulesC12(w *World, o *Out) {
 	if jail != nil {
 		o.Analysed(w.FuncKey(jail))
 		n := 0
-		for _, g := range WithAnon(jail) {
+		for _, g := range unitFuncs(jail) {
 			for _, s := range CallsIn(g) {
+				if s.Fn != g {
+					continue // listed again with the helper it lives in
+				}
 				if s.Callee.Name == "Jail" && s.Callee.Iface {
 					n++
-					// located in the inner closure: the guards dominate the closure's invocation in Jail
+					// located in an inner closure: the guards dominate the closure's invocation in its parent
 					var at ssa.Instruction = s.Instr
-					if g != jail {
+					if g.Parent() != nil {
 						at = nil
-						for _, s2 := range CallsIn(jail) {
+						for _, s2 := range CallsIn(g.Parent()) {
 							if mc, ok := s2.Common().Value.(*ssa.MakeClosure); ok && mc.Fn == g {
 								at = s2.Instr
 							}
 						}
 					}
 					ok1, ok2 := false, false
+					var inputs []ssa.Value
 					if at != nil {
 						for _, f := range FactsAt(at) {
 							if f.Kind == FCmp && f.Op == token.NEQ {
 								if c, ok := f.Y.(*ssa.Const); ok && c.Int64() == 1 {
 									ok1 = true
+									inputs = append(inputs, f.X)
 								}
 							}
 							if f.Kind == FCmp && f.Op == token.LEQ {
@@ -770,6 +822,7 @@ func rulesC12(w *World, o *Out) {
 									if c, ok := f.Y.(*ssa.Const); ok {
 										if fv, _ := constant.Float64Val(c.Value); fv == 0.25 {
 											ok2 = true
+											inputs = append(inputs, f.X)
 										}
 									}
 								}
@@ -778,6 +831,22 @@ func rulesC12(w *World, o *Out) {
 					}
 					o.Check("C12.R4", "Jail|never jails the last active validator", ok1, w.Pos(s.Instr.Pos()), "slashing.Jail must be dominated by activeCount != 1")
 					o.Check("C12.R4", "Jail|never jails more than 25 % of bonded power", ok2, w.Pos(s.Instr.Pos()), "slashing.Jail must be dominated by power/total <= 0.25")
+					// the totals are those of the moment of this jailing: counted inside the call, not handed in
+					// (each jailing shrinks the active set the next one is judged against)
+					var handed []string
+					for _, in := range inputs {
+						x, _ := fl.Influence(in)
+						for ap := range x {
+							q, isP := ap.Root.(*ssa.Parameter)
+							if !isP || q.Parent().Parent() != nil || isReceiver(q.Parent(), q) || isCtxParam(q) || strings.HasSuffix(q.Type().String(), "ValAddress") {
+								continue
+							}
+							handed = append(handed, ap.String())
+						}
+					}
+					sort.Strings(handed)
+					o.Check("C12.R4", "Jail|protection totals are counted at the time of the jailing", ok1 && ok2 && len(handed) == 0, w.Pos(s.Instr.Pos()),
+						"active count and total power must be computed from the staking state inside the jailing call; values handed in by the caller ("+strings.Join(handed, ",")+") are stale after the first jailing of a sweep, so later validators are judged against a set that no longer exists")
 				}
 			}
 		}
